@@ -562,3 +562,252 @@ Proof.
     constructor; unfold eg_ok; cbn [with_file with_task with_main s_tasks s_files s_main s_wg]; auto.
     unfold main_ok, all_files_done, any_file_err. cbn. auto.
 Qed.
+
+Lemma initB cap wfs : InvB (init cap wfs).
+Proof.
+  constructor; unfold eg_ok, main_ok, init; cbn [s_tasks s_files s_main s_wg].
+  - intros f fs r Hn. rewrite nth_error_map in Hn.
+    destruct (nth_error wfs f); [|discriminate Hn]. inversion Hn. destruct r; cbn; auto.
+  - intros t x Hn. destruct t; discriminate Hn.
+  - intros f fs Hn. rewrite nth_error_map in Hn.
+    destruct (nth_error wfs f); [|discriminate Hn]. inversion Hn. exact I.
+  - exact I.
+Qed.
+
+Lemma execB tr : forall st st', InvB st -> exec_from true st tr = Some st' -> InvB st'.
+Proof.
+  induction tr as [|e tr IH]; intros st st' I H; cbn in H.
+  - inversion H; subst; exact I.
+  - destruct (step true st e) as [st1|] eqn:E; [|discriminate H].
+    exact (IH _ _ (stepB _ _ _ I E) H).
+Qed.
+
+(* ============================ part C: diagnostics ============================ *)
+
+Definition task_diags (x : task) : list diag := if called x then cb_diags (t_cb x) else [].
+
+Record InvC (st : state) : Prop := {
+  inv_diags : Permutation (s_diags st) (flat_map task_diags (s_tasks st));
+  inv_cbpos : forall t x, nth_error (s_tasks st) t = Some x -> forall d, In d (cb_diags (t_cb x)) ->
+      d_pos d = i_pos (t_inv x) /\ d_file d = t_file x /\ d_rule d = i_rule (t_inv x) }.
+
+Lemma flat_map_upd_same {A B} (g : A -> list B) l i x y :
+  nth_error l i = Some x -> g y = g x -> flat_map g (upd l i y) = flat_map g l.
+Proof.
+  revert i; induction l as [|a l IH]; intros [|i] H E; try discriminate H; cbn in *.
+  - inversion H; subst. now rewrite E.
+  - now rewrite (IH i H E).
+Qed.
+
+(* a phase change that keeps the callback result and the "called" status *)
+Lemma stepC_phase st t x p free' wg' files' :
+  InvC st -> nth_error (s_tasks st) t = Some x -> called (set_phase x p) = called x ->
+  InvC {| s_free := free'; s_wg := wg'; s_tasks := upd (s_tasks st) t (set_phase x p);
+          s_files := files'; s_diags := s_diags st; s_main := s_main st |}.
+Proof.
+  intros [Hd Hc] Hx E. constructor; cbn [s_diags s_tasks].
+  - rewrite (flat_map_upd_same task_diags _ _ x); auto. unfold task_diags. now rewrite E.
+  - intros t' x' Hn. apply nth_upd_cases in Hn. destruct Hn as [(_ & -> & _)|(_ & Hn)]; [cbn|]; eauto.
+Qed.
+
+Lemma stepC woe st e st' : InvC st -> step woe st e = Some st' -> InvC st'.
+Proof.
+  intros I H. destruct e; cbn [step] in H.
+  - destruct (nth_error (s_files st) f) as [fs|]; [|discriminate H].
+    destruct (f_pc fs); try discriminate H.
+    destruct (remove_inv i (f_todo fs)); [|discriminate H].
+    injection H as <-. destruct I as [Hd Hc]. constructor; cbn [s_diags s_tasks].
+    + rewrite flat_map_app. cbn. now rewrite !app_nil_r.
+    + intros t x Hn.
+      destruct (Nat.lt_ge_cases t (length (s_tasks st))) as [L|L].
+      * rewrite nth_error_app1 in Hn by exact L. eauto.
+      * rewrite nth_error_app2 in Hn by exact L.
+        destruct (t - length (s_tasks st)) as [|k]; cbn in Hn.
+        -- inversion Hn. cbn. contradiction.
+        -- destruct k; discriminate Hn.
+  - destruct (nth_error (s_tasks st) t) as [x|] eqn:Hx; [|discriminate H].
+    destruct (s_free st) as [|n]; [discriminate H|].
+    destruct (phase_eqb (t_phase x) PSpawned) eqn:Hph; [|discriminate H]. phase_of Hph.
+    injection H as <-. apply stepC_phase; auto. unfold called. cbn. now rewrite Hph.
+  - destruct (nth_error (s_tasks st) t) as [x|] eqn:Hx; [|discriminate H].
+    destruct (phase_eqb (t_phase x) PAcquired) eqn:Hph; [|discriminate H]. phase_of Hph.
+    injection H as <-. destruct I as [Hd Hc]. constructor; cbn [s_diags s_tasks].
+    + rewrite (flat_map_upd_same task_diags _ _ x); auto. unfold task_diags, called. cbn. now rewrite Hph.
+    + intros t' x' Hn. apply nth_upd_cases in Hn. destruct Hn as [(_ & -> & _)|(_ & Hn)]; [|eauto].
+      cbn [t_cb t_inv t_file]. intros d Hd'. now apply callback_pos in Hd'.
+  - destruct (nth_error (s_tasks st) t) as [x|] eqn:Hx; [|discriminate H].
+    destruct (phase_eqb (t_phase x) PExited) eqn:Hph; [|discriminate H]. phase_of Hph.
+    injection H as <-. apply stepC_phase; auto. unfold called. cbn. now rewrite Hph.
+  - destruct (nth_error (s_tasks st) t) as [x|] eqn:Hx; [|discriminate H].
+    destruct (phase_eqb (t_phase x) PReleased) eqn:Hph; [|discriminate H]. phase_of Hph.
+    destruct (nth_error (s_files st) (t_file x)); [|discriminate H].
+    injection H as <-. destruct I as [Hd Hc]. constructor; cbn [s_diags s_tasks].
+    + pose proof (flat_map_upd_perm task_diags _ _ _ (set_phase x PCalled) Hx) as P.
+      assert (E1 : task_diags x = []) by (unfold task_diags, called; now rewrite Hph).
+      assert (E2 : task_diags (set_phase x PCalled) = cb_diags (t_cb x)) by reflexivity.
+      rewrite E1, E2, app_nil_r in P.
+      etransitivity; [apply Permutation_app_tail; exact Hd|]. symmetry. exact P.
+    + intros t' x' Hn. apply nth_upd_cases in Hn. destruct Hn as [(_ & -> & _)|(_ & Hn)]; [cbn|]; eauto.
+  - destruct (nth_error (s_tasks st) t) as [x|] eqn:Hx; [|discriminate H].
+    destruct (phase_eqb (t_phase x) PCalled) eqn:Hph; [|discriminate H]. phase_of Hph.
+    destruct (nth_error (s_files st) (t_file x)); [|discriminate H].
+    injection H as <-. apply stepC_phase; auto. unfold called. cbn. now rewrite Hph.
+  - destruct (nth_error (s_files st) f) as [fs|]; [|discriminate H].
+    destruct r, (f_pc fs); try discriminate H.
+    + destruct (f_todo fs); [|discriminate H]. injection H as <-. destruct I. constructor; assumption.
+    + injection H as <-. destruct I. constructor; assumption.
+  - destruct (nth_error (s_files st) f) as [fs|]; [|discriminate H].
+    destruct (f_pc fs); try discriminate H.
+    destruct (andb _ _); [|discriminate H]. injection H as <-. destruct I. constructor; assumption.
+  - destruct (s_main st); try discriminate H.
+    destruct (andb _ _); [|discriminate H]. injection H as <-. destruct I. constructor; assumption.
+  - destruct (s_main st); try discriminate H.
+    destruct (Nat.eqb _ _); [|discriminate H]. injection H as <-. destruct I. constructor; assumption.
+  - destruct (s_main st); try discriminate H.
+    + destruct (andb _ _); [|discriminate H]. injection H as <-. destruct I. constructor; assumption.
+    + destruct (Bool.eqb _ _); [|discriminate H]. injection H as <-. destruct I. constructor; assumption.
+Qed.
+
+Lemma initC cap wfs : InvC (init cap wfs).
+Proof. constructor; cbn; [constructor|]. intros t x Hn. destruct t; discriminate Hn. Qed.
+
+Lemma execC woe tr : forall st st', InvC st -> exec_from woe st tr = Some st' -> InvC st'.
+Proof.
+  induction tr as [|e tr IH]; intros st st' I H; cbn in H.
+  - inversion H; subst; exact I.
+  - destruct (step woe st e) as [st1|] eqn:E; [|discriminate H].
+    exact (IH _ _ (stepC _ _ _ _ I E) H).
+Qed.
+
+(* ============================ the theorems ==================================== *)
+
+Lemma live_false_done x : live x = false -> t_phase x = PDone.
+Proof. unfold live. destruct (t_phase x); cbn; congruence. Qed.
+
+(* when Lint* has returned, every invocation that was ever started is done *)
+Theorem all_collected cap wfs tr st fatal :
+  exec cap wfs tr = Some st -> s_main st = MReturned fatal ->
+  forall x, In x (s_tasks st) -> t_phase x = PDone.
+Proof.
+  intros H Em x Hx.
+  destruct (execA true cap tr _ _ (initA cap wfs) H) as [_ Hw].
+  destruct (execB tr _ _ (initB cap wfs) H) as [_ _ _ Hm].
+  unfold main_ok in Hm. rewrite Em in Hm. destruct Hm as [_ [W _]].
+  rewrite W in Hw. symmetry in Hw.
+  apply live_false_done. exact (cnt_zero_all live _ Hw x Hx).
+Qed.
+
+(* ... and the same holds from the moment proc.wait() has returned *)
+Theorem all_collected_after_wait cap wfs tr st :
+  exec cap wfs tr = Some st -> s_main st = MAfter ->
+  forall x, In x (s_tasks st) -> t_phase x = PDone.
+Proof.
+  intros H Em x Hx.
+  destruct (execA true cap tr _ _ (initA cap wfs) H) as [_ Hw].
+  destruct (execB tr _ _ (initB cap wfs) H) as [_ _ _ Hm].
+  unfold main_ok in Hm. rewrite Em in Hm. destruct Hm as [_ W].
+  rewrite W in Hw. symmetry in Hw.
+  apply live_false_done. exact (cnt_zero_all live _ Hw x Hx).
+Qed.
+
+Lemma exec_from_app woe tr1 : forall tr2 st st',
+  exec_from woe st (tr1 ++ tr2) = Some st' ->
+  exists st1, exec_from woe st tr1 = Some st1 /\ exec_from woe st1 tr2 = Some st'.
+Proof.
+  induction tr1 as [|e tr1 IH]; intros tr2 st st' H; cbn in *.
+  - eauto.
+  - destruct (step woe st e); [|discriminate H]. eauto.
+Qed.
+
+Lemma no_spawn_after st f i : InvB st -> s_main st <> MRun -> step true st (ESpawn f i) = None.
+Proof.
+  intros [_ _ _ Hm] N. cbn [step].
+  destruct (nth_error (s_files st) f) as [fs|] eqn:Hf; [|reflexivity].
+  assert (D : all_files_done st = true) by (unfold main_ok in Hm; destruct (s_main st); tauto).
+  destruct (all_done_nth _ _ _ D Hf) as [e E]. rewrite E. reflexivity.
+Qed.
+
+Lemma main_leaves_run st e st' : step true st e = Some st' -> s_main st <> MRun -> s_main st' <> MRun.
+Proof.
+  intros H N. destruct e; cbn [step] in H;
+    repeat match type of H with
+           | match ?c with _ => _ end = Some _ => destruct c eqn:?; try discriminate H
+           | (if ?c then _ else _) = Some _ => destruct c eqn:?; try discriminate H
+           end;
+    try (injection H as <-; cbn; try assumption; try congruence; discriminate).
+Qed.
+
+(* "proc.wait() must be called after eg.Wait()": no wg.Add can follow the
+   start of wg.Wait in any execution *)
+Theorem wg_add_before_wait cap wfs pre post st :
+  exec cap wfs (pre ++ EPwEnter :: post) = Some st -> forall f i, ~ In (ESpawn f i) post.
+Proof.
+  unfold exec. intro H. apply exec_from_app in H. destruct H as [st1 [H1 H2]].
+  pose proof (execB _ _ _ (initB cap wfs) H1) as I1.
+  cbn [exec_from] in H2. destruct (step true st1 EPwEnter) as [st2|] eqn:E; [|discriminate H2].
+  pose proof (stepB _ _ _ I1 E) as I2.
+  assert (N2 : s_main st2 <> MRun).
+  { cbn [step] in E. destruct (s_main st1); try discriminate E.
+    destruct (andb _ _); [|discriminate E]. injection E as <-. cbn. discriminate. }
+  clear H1 E I1. revert st2 I2 N2 H2. induction post as [|e post IH]; intros st2 I2 N2 H2 f i Hin; [contradiction|].
+  cbn [exec_from] in H2. destruct (step true st2 e) as [st3|] eqn:E; [|discriminate H2].
+  destruct Hin as [->|Hin].
+  - rewrite (no_spawn_after _ _ _ I2 N2) in E. discriminate E.
+  - exact (IH st3 (stepB _ _ _ I2 E) (main_leaves_run _ _ _ E N2) H2 f i Hin).
+Qed.
+
+(* on return: the diagnostics are exactly the issues of the invocations (each
+   once, in some order), each at the run: position of its step, and a fatal
+   error is returned iff some invocation failed *)
+Theorem no_lost_output cap wfs tr st fatal :
+  exec cap wfs tr = Some st -> s_main st = MReturned fatal ->
+  (fatal = true <-> exists x, In x (s_tasks st) /\ t_cb x = CErr) /\
+  (fatal = false -> Permutation (returned_diags st) (flat_map (fun x => cb_diags (t_cb x)) (s_tasks st))) /\
+  (forall x d, In x (s_tasks st) -> In d (cb_diags (t_cb x)) ->
+     d_pos d = i_pos (t_inv x) /\ d_file d = t_file x /\ d_rule d = i_rule (t_inv x)).
+Proof.
+  intros H Em.
+  pose proof (all_collected _ _ _ _ _ H Em) as AC.
+  destruct (execB tr _ _ (initB cap wfs) H) as [He Ht Hp Hm].
+  destruct (execC true tr _ _ (initC cap wfs) H) as [Hd Hc].
+  unfold main_ok in Hm. rewrite Em in Hm. destruct Hm as [D [_ F]].
+  assert (Called : forall x, In x (s_tasks st) -> called x = true).
+  { intros x Hx. unfold called. now rewrite (AC x Hx). }
+  repeat split.
+  - (* fatal -> a failing invocation *)
+    intro Ft. rewrite Ft in F. symmetry in F. unfold any_file_err in F.
+    apply existsb_exists in F. destruct F as [fs [Hin Herr]].
+    apply In_nth_error in Hin. destruct Hin as [f Hf].
+    pose proof (Hp _ _ Hf) as P. unfold pc_ok in P. unfold is_err_pc in Herr.
+    destruct (f_pc fs) as [| | |[|]]; try discriminate Herr.
+    assert (G : exists r, eg_err (eg_of fs r) = true) by (destruct P as [P|P]; [exists SC|exists PY]; exact P).
+    destruct G as [r G]. destruct (He _ _ r Hf) as [_ E]. rewrite E in G. apply Nat.ltb_lt in G.
+    apply cnt_pos_ex in G. destruct G as [x [Hx Fx]]. exists x. split; [exact Hx|].
+    unfold failed_in in Fx. apply andb_prop in Fx. destruct Fx as [_ Fx]. apply andb_prop in Fx.
+    destruct Fx as [_ Fx]. destruct (t_cb x); [reflexivity|discriminate Fx].
+  - (* a failing invocation -> fatal *)
+    intros [x [Hx Ex]]. destruct (In_nth_error _ _ Hx) as [t Hn].
+    pose proof (Ht _ _ Hn) as L. apply nth_error_Some in L.
+    destruct (nth_error (s_files st) (t_file x)) as [fs|] eqn:Hf; [|contradiction].
+    destruct (He _ _ (i_rule (t_inv x)) Hf) as [_ E].
+    assert (G : 1 <= cnt (failed_in (t_file x) (i_rule (t_inv x))) (s_tasks st)).
+    { apply (cnt_pos _ _ t x Hn). unfold failed_in, in_eg.
+      now rewrite Nat.eqb_refl, rule_eqb_refl, (Called x Hx), Ex. }
+    assert (G' : eg_err (eg_of fs (i_rule (t_inv x))) = true) by (rewrite E; apply Nat.ltb_lt; lia).
+    destruct (all_done_nth _ _ _ D Hf) as [e Epc].
+    pose proof (Hp _ _ Hf) as P. unfold pc_ok in P. rewrite Epc in P.
+    rewrite F. unfold any_file_err. apply existsb_exists. exists fs. split; [eapply nth_error_In; eauto|].
+    unfold is_err_pc. rewrite Epc. destruct e; [reflexivity|].
+    exfalso. destruct P as (_ & P1 & _ & P2). destruct (i_rule (t_inv x)); cbn [eg_of] in G'; congruence.
+  - (* the diagnostics *)
+    intros ->. unfold returned_diags. rewrite Em.
+    etransitivity; [exact Hd|].
+    assert (E : forall l, (forall x, In x l -> called x = true) ->
+                flat_map task_diags l = flat_map (fun x => cb_diags (t_cb x)) l).
+    { induction l as [|a l IH]; intro C; [reflexivity|]. cbn. unfold task_diags at 1.
+      rewrite (C a (or_introl eq_refl)). f_equal. apply IH. intros y Hy. apply C. now right. }
+    rewrite (E _ Called). reflexivity.
+  - destruct (In_nth_error _ _ H0) as [t Hn]. exact (proj1 (Hc _ _ Hn _ H1)).
+  - destruct (In_nth_error _ _ H0) as [t Hn]. exact (proj1 (proj2 (Hc _ _ Hn _ H1))).
+  - destruct (In_nth_error _ _ H0) as [t Hn]. exact (proj2 (proj2 (Hc _ _ Hn _ H1))).
+Qed.
